@@ -34,6 +34,15 @@ CLAIMS = {
             "the recorded factor is the tested gcd. Together with the lemma T = sum(P/v) == P/v (mod v) this is the exactness argument for every batch shape.",
             "Trusted: Python slice/zip semantics, gmpy2.gcd, the congruence lemma. It is an induction over tree levels read from the code, not a run on any batch.",
             "DESIGN.md section 3 C03"),
+    "C04": ("other", "symbolic loop-shape proof (inferred invariant, step, order, trip count), polynomial identity for the guess, symbolic constant folding, premature-exit lint over candidate loops",
+            "Decides: FermatFactor tests exactly a0 = isqrt(n)+1 ... a0+max_steps-1 (start, invariant b2 = a^2-n, step +1, test-before-advance, "
+            "range(max_steps), bound flowing unmodified from the constructor) - i.e. the 'exactly when (p+q)/2 - ceil(sqrt n) < bound' clause; "
+            "the guess isqrt(n + (D/2)^2) + D/2 equals q exactly for n = p(p+D) (polynomial identity); the difference table contains the six "
+            "documented values for symbolic L = bitlen // 2 and the gate is exactly L < 384; the three msb variants for every listed unseeded output; "
+            "and no candidate-search loop in the ten search functions returns its failure value or breaks without success outside four documented cut-offs "
+            "(this rule exposed the FactorWithGuess defect, repaired by fix 73b1dbc).",
+            "Not decided: the equal-high-and-low-bits region (r, s) and the prime-gap tolerance of guesses (runtime quantities); Lehman's completeness argument is trusted number theory.",
+            "DESIGN.md section 3 C04"),
     "C16": ("other", "typestate / who-may-write analysis over the AST + symbolic path walk of all 24 Check bodies",
             "Decides, for every path of every Check body in the package, that each loop iteration records exactly one "
             "result entry on that iteration's artifact with an entry created in the same iteration, that the positive flag, "
